@@ -58,6 +58,20 @@ def _replace(self, target):
     return r
 pathlib.Path.replace = _replace
 
+if A.get("xdev"):
+    # every directory on a file system of its own (a split directory that is a mount point): the kernel refuses to rename
+    # across directories with EXDEV.  A rename between siblings — what write-temp-then-rename does — is unaffected.
+    import errno
+    def _xdev(orig):
+        def f(src, dst, *a, **k):
+            if os.path.dirname(os.path.abspath(os.fspath(src))) != os.path.dirname(os.path.abspath(os.fspath(dst))) \
+                    and os.path.abspath(os.fspath(dst)).startswith(ROOT + "/"):
+                raise OSError(errno.EXDEV, "Invalid cross-device link", os.fspath(src))
+            return orig(src, dst, *a, **k)
+        return f
+    os.rename = _xdev(os.rename)
+    os.replace = _xdev(os.replace)
+
 import sedpack.io.dataset_writing as DW  # noqa: E402
 _cnt = {"k": A.get("uuid_base", 0)}
 class _FakeUUID:
